@@ -59,6 +59,38 @@ def record_pts(pid, path, pcfg, flags, tid0, rng, desc, traces, meta, strings, o
             tid += 1
             traces.append({'tid': tid, 'kind': 'pt', 'groups': groups, 'lines': [expand.cps(s) for s in lines], 'count': n})
             meta[tid] = {'ruleset': desc, 'flags': flags, 'pt': pt, 'markov_levels': list(pcfg.grammar[pt[0][0]][pt[0][1]]['values']) if is_m else None}
+        if is_m and pid == 'C04' and m_judged and len(lines) >= 3:
+            # the same Markov pre-terminal interrupted after k strings (quit flag set while the k-th string is written) and
+            # continued by restore_omen() on a freshly loaded grammar: the remaining strings, count reported = lines written
+            for k_ in sorted({1, len(lines) // 2, len(lines) - 1}):
+                got1 = []
+
+                def hook(g_, k_=k_, got1=got1):
+                    got1.append(g_)
+                    if len(got1) >= k_:
+                        pcfg.should_exit = True
+                pcfg.print_guess = hook
+                pcfg.should_exit = False
+                pcfg.omen_exit = False
+                import contextlib as _c2, io as _i2
+                with _c2.redirect_stderr(_i2.StringIO()):
+                    n1 = pcfg.create_guesses(pt)
+                pcfg.should_exit = False
+                pcfg.omen_exit = False
+                pc2 = ptq.load_pcfg(path, save_file=pcfg.save_file, **flags)
+                got2 = []
+                pc2.print_guess = got2.append
+                try:
+                    n2 = pc2.restore_omen(len(got1), {'prob': 0.5, 'pt': [['M', 1, 1]], 'level': 1}, None)
+                except Exception as ex:
+                    n2, got2 = -1, []
+                rest = lines[len(got1):]
+                tid += 1
+                traces.append({'tid': tid, 'kind': 'pt', 'groups': [dict(groups[0], v=[expand.cps(x) for x in rest])],
+                               'lines': [expand.cps(s_) for s_ in got2], 'count': n2})
+                meta[tid] = {'ruleset': desc, 'flags': flags, 'pt': pt, 'check': 'Markov pre-terminal interrupted after %d strings and restored' % len(got1),
+                             'reported_by_first_part': n1, 'written_by_first_part': len(got1), 'reported_by_restore': n2, 'written_by_restore': len(got2)}
+                strings.extend(got2)
         if is_m:
             groups = gen_groups
         # I-layer conformance with a limit
@@ -135,6 +167,44 @@ def main(pid, tier, seed):
                                    'stdout': [expand.cps(x) for x in noise.split('\n')] if noise else []})
                     meta[tid] = {'ruleset': desc, 'flags': flags, 'N': N, 'via': 'CrackingSession.run'}
                 limit_jobs.append((d, desc, flags, full))
+
+    # ---- C09: the other modes that honour --limit (random_walk, honeywords): exactly N lines, random_walk = prefix of a longer run
+    if pid == 'C09':
+        import contextlib as _cl
+        import io as _io
+        from lib_guesser.honeyword_session import HoneywordSession
+        n_modes = 0
+        from . import check_honey
+        hdirs = []
+        for k in range(12 if tier == 'quick' else 120):
+            # well-formed rulesets (every list sums to 1): a draw always selects something
+            d_ = os.path.join(work, 'hw%d' % k)
+            hdirs.append((d_, {'base': check_honey.make_ruleset(rng, d_)['base'], 'kind': 'normalised dyadic ruleset'}))
+        for d, desc in hdirs:
+            pc_ = ptq.load_pcfg(d)
+            if not any('M' in b['replacements'] for b in pc_.base) or all('M' in b['replacements'] for b in pc_.base):
+                continue            # a Markov structure next to others: walks that land on it produce nothing and cost nothing
+            if n_modes >= (4 if tier == 'quick' else 40):
+                break
+
+            def hrun(mode, N):
+                pc2 = ptq.load_pcfg(d)
+                out_ = []
+                pc2.print_guess = out_.append
+                with _cl.redirect_stderr(_io.StringIO()), _cl.redirect_stdout(_io.StringIO()):
+                    HoneywordSession(pc2, mode).run(limit=N)
+                return out_
+            ref = hrun('random_walk', 60)
+            for mode in ('random_walk', 'honeywords'):
+                for N in (1, 2, 3, 7, 25):
+                    got = hrun(mode, N)
+                    full = ref if mode == 'random_walk' else (got + ['\x00'] * max(0, N - len(got)))
+                    tid += 1
+                    traces.append({'tid': tid, 'kind': 'limit', 'N': N, 'full': [expand.cps(s_) for s_ in full],
+                                   'lines': [expand.cps(s_) for s_ in got], 'hasout': False, 'stdout': []})
+                    meta[tid] = {'ruleset': desc, 'flags': {}, 'N': N, 'via': 'HoneywordSession.run(limit=N), mode ' + mode, 'got': len(got)}
+            strings.extend(ref)
+            n_modes += 1
 
     # ---- C09: status / help requests while guessing, on sessions of every age: nothing but guesses on stdout ----
     if pid == 'C09':
